@@ -82,8 +82,10 @@ func (fc *freshCtx) value(v ssa.Value, seen map[ssa.Value]bool) freshRes {
 		return freshRes{true, ""}
 	case *ssa.Alloc:
 		return freshRes{true, ""}
-	case *ssa.MakeSlice, *ssa.MakeMap, *ssa.MakeChan, *ssa.MakeInterface, *ssa.MakeClosure:
+	case *ssa.MakeSlice, *ssa.MakeMap, *ssa.MakeChan, *ssa.MakeClosure:
 		return freshRes{true, ""}
+	case *ssa.MakeInterface:
+		return fc.value(x.X, seen)
 	case *ssa.Convert:
 		// string <-> []byte conversions copy; numeric conversions carry no storage
 		return freshRes{true, ""}
@@ -274,4 +276,44 @@ func (fc *freshCtx) fieldOfLocal(al *ssa.Alloc, field int, seen map[ssa.Value]bo
 		}
 	}
 	return res
+}
+
+// checkPerUnitInstances (R05.9): objects with per-unit mutable state are built per unit.
+func checkPerUnitInstances(c *core.Ctx, rule string) {
+	st := c.Rule(rule, "every function of ALU-factory shape (one emu.StorageAccessor parameter, one emu.ALU result; the closures handed to BuildComputeUnitWithALU) returns an ALU allocated by that call: the ALU keeps per-wavefront state (the LDS pointer set before every wavefront), so an instance shared by the compute units of a GPU is overwritten by whichever unit runs concurrently under the parallel engine, and results differ from the serial run and from run to run", 2)
+	fc := newFreshCtx(c)
+	for _, p := range c.RepoPkgs() {
+		rel := core.RelPkg(p.PkgPath)
+		sp := c.SSAPkg(rel)
+		if sp == nil {
+			continue
+		}
+		var fns []*ssa.Function
+		for _, fn := range c.SrcFuncs(rel) {
+			fns = append(fns, fn)
+			fns = append(fns, fn.AnonFuncs...)
+		}
+		seenFn := map[*ssa.Function]bool{}
+		for _, fn := range fns {
+			if seenFn[fn] {
+				continue
+			}
+			seenFn[fn] = true
+			sig := fn.Signature
+			if sig.Params().Len() != 1 || sig.Results().Len() != 1 {
+				continue
+			}
+			if namedTypeName(sig.Params().At(0).Type()) != "emu.StorageAccessor" || namedTypeName(sig.Results().At(0).Type()) != "emu.ALU" {
+				continue
+			}
+			st.Instances++
+			c.MarkAnalysed(fn)
+			r := fc.result(fn, 0)
+			st.Ob(r.ok)
+			st.Sample("%s returns an ALU of its own: %v %s", core.FuncName(fn), r.ok, r.why)
+			if !r.ok {
+				c.ReportAt(rule, fn, fn.Pos(), "alu-shared:"+core.FuncName(fn), core.FuncName(fn)+" is an ALU factory that can hand out an ALU it did not allocate ("+r.why+"): the compute units built with it share one ALU and overwrite each other's LDS pointer when their events run concurrently")
+			}
+		}
+	}
 }
